@@ -577,6 +577,11 @@ class Body:
             b = base
             if b[0] == 'call' and canon(b[1]).endswith('Try::branch'):
                 b = b[2][0]
+            # the success payload of x.ok_or(e) / x.filter(p) / x.ok() / x.map_err(f) is the success payload of x
+            bb = deep_strip(b)
+            while bb[0] == 'call' and bb[2] and canon(bb[1]).split("::")[-2:] in (["Option", "ok_or"], ["Option", "ok_or_else"], ["Option", "filter"], ["Result", "ok"], ["Result", "map_err"]):
+                bb = deep_strip(bb[2][0])
+                b = bb
             r = ('ok', b)
         # a payload read from a multiply-defined local (match arms, the result of an inlined helper): if exactly one of its
         # definitions builds this variant, that definition's payload is the value
